@@ -260,7 +260,10 @@ theorem head_remarkT {sep : Char} {ts : List Tok} {P : Char → Prop}
     · right; exact h1
 
 theorem remark1_wf {sep sep' : Char} {ac : Bool} (addSep : Bool) (l : LSeg) (hwf : l.WF sep ac)
-    (hr : RenderOK l) (h1 : addSep = false → ac = false) (h2 : addSep = true → l.isTop = false) :
+    (hr : RenderOK l)
+    (h1 : addSep = false → ac = true → ∀ top ts, l = .anchor top ts →
+      ∀ t ∈ ts.head?, t.1 = true ∨ (t.2 ≠ '+' ∧ t.2 ≠ '-' ∧ t.2 ≠ '&'))
+    (h2 : addSep = true → l.isTop = false) :
     (remark1 sep' addSep l).WF sep' ac := by
   cases l with
   | key ts =>
@@ -276,16 +279,17 @@ theorem remark1_wf {sep sep' : Char} {ac : Bool} (addSep : Bool) (l : LSeg) (hwf
     have hstar : '*' ∉ tokChars ts := hr
     cases addSep with
     | false =>
-      have hac := h1 rfl
-      subst hac
+      have hac : ac = true → ∀ t ∈ (remarkT sep' ts).head?,
+          t.1 = true ∨ (t.2 ≠ '+' ∧ t.2 ≠ '-' ∧ t.2 ≠ '&') := fun ha =>
+        head_remarkT (P := fun c => c ≠ '+' ∧ c ≠ '-' ∧ c ≠ '&') (h1 rfl ha top ts rfl)
       cases top with
       | false =>
         obtain ⟨hne, hb⟩ := hwf
-        exact ⟨by simpa [remarkT] using hne, (fun h => by cases h), allBare_remark_top hb,
+        exact ⟨by simpa [remarkT] using hne, hac, allBare_remark_top hb,
           (by rw [tokChars_remarkT]; exact hstar)⟩
       | true =>
         obtain ⟨hne, _, hb, _⟩ := hwf
-        exact ⟨by simpa [remarkT] using hne, (fun h => by cases h), allBare_remark_top hb,
+        exact ⟨by simpa [remarkT] using hne, hac, allBare_remark_top hb,
           (by rw [tokChars_remarkT]; exact hstar)⟩
     | true =>
       cases top with
@@ -352,7 +356,8 @@ theorem remarkFrom_wf {sep sep' : Char} :
     intro ac mm addSep hwf hok h1 h2
     obtain ⟨hw1, hw2, hw3⟩ := hwf
     obtain ⟨f1, f2, f3⟩ := remark1_flags sep' addSep l
-    refine ⟨remark1_wf addSep l hw1 (hok l (by simp)) h1 (fun ha => h2 l (by simp [ha])), ?_, ?_⟩
+    refine ⟨remark1_wf addSep l hw1 (hok l (by simp))
+      (fun ha hc => by rw [h1 ha] at hc; cases hc) (fun ha => h2 l (by simp [ha])), ?_, ?_⟩
     · rw [f2]; exact hw2
     · rw [f1, f3]
       apply ih _ _ true hw3 (fun x hx => hok x (by simp [hx])) (by simp)
